@@ -220,7 +220,12 @@ AnsEv(am, rm, e) ==
 (* C04  request life cycle.  qm.st[r] in idle/active/todel/done.           *)
 (***************************************************************************)
 NoReq == 99
-ReqInit == [st |-> <<>>, kind |-> <<>>, master |-> <<>>, res |-> <<>>, slave |-> <<>>, bad |-> ""]
+ReqInit == [st |-> <<>>, kind |-> <<>>, master |-> <<>>, res |-> <<>>, slave |-> <<>>, syn |-> 0, bad |-> ""]
+(* "eventually completed" as a bounded-progress clause that also decides on graphs without a fix-point: while a request is pending and  *)
+(* the bus shows nothing but SYN symbols, ebusd must start an arbitration (or hand it to the adapter) within its lock count + 3 steps  *)
+(* of its loop that saw a SYN (ReqIdleStep; one opportunity per step, however many buffered SYNs the step consumed)                     *)
+(* (not applied to run-mode traces: there the "sub" event is logged by the client thread before the request reaches the queue)          *)
+IdleBound == IF "runmode" \in DOMAIN Cfg THEN 1000000 ELSE (IF Cfg.lock = 0 THEN 8 ELSE (IF Cfg.lock > 3 THEN Cfg.lock ELSE 3) + 1) + 3
 ReqFail(qm, sig) == IF qm.bad = "" /\ sig \notin Muted THEN [qm EXCEPT !.bad = sig] ELSE qm
 Ext(f, r, v, dflt) == [k \in 1..(IF r > Len(f) THEN r ELSE Len(f)) |-> IF k = r THEN v ELSE IF k <= Len(f) THEN f[k] ELSE dflt]
 StOf(qm, r) == IF r <= Len(qm.st) THEN qm.st[r] ELSE "idle"
@@ -231,7 +236,7 @@ ReqEv(qm, e) ==
          LET r == e[2] + 1 IN
          IF e[5] # 0 THEN qm      \* rejected by addRequest (read-only): nothing was handed over
          ELSE IF StOf(qm, r) # "idle" THEN ReqFail(qm, "C04:harness-resubmitted-live-request")
-         ELSE [qm EXCEPT !.st = Ext(qm.st, r, "active", "idle"), !.kind = Ext(qm.kind, r, e[3], 0),
+         ELSE [qm EXCEPT !.syn = 0, !.st = Ext(qm.st, r, "active", "idle"), !.kind = Ext(qm.kind, r, e[3], 0),
                          !.master = Ext(qm.master, r, e[4], <<>>), !.res = Ext(qm.res, r, 0, 0), !.slave = Ext(qm.slave, r, <<>>, <<>>)]
     [] e[1] = "ntf" ->
          LET r == e[2] + 1 IN
@@ -250,6 +255,16 @@ ReqEv(qm, e) ==
          ELSE [qm EXCEPT !.st[r] = "idle"]
     [] e[1] = "bad" -> ReqFail(qm, "C04:" \o e[2])
     [] OTHER -> IF \E r \in 1..Len(qm.st) : qm.st[r] = "todel" THEN ReqFail(qm, "C04:self-deleting-request-not-deleted-after-completion") ELSE qm
+
+ReqIdleStep(qm0, qm, evs) ==
+  LET synSeen == \E k \in 1..Len(evs) : evs[k][1] = "rx" /\ evs[k][2] = SYN
+      other == \E k \in 1..Len(evs) : evs[k][1] \in {"tx", "enhreq", "to", "err", "close", "sub", "subcb", "ntf", "reconnect"}
+                                          \/ (evs[k][1] = "rx" /\ evs[k][2] # SYN)
+      pending == Active(qm0) # {} /\ Active(qm) # {} IN
+  IF other \/ ~pending THEN [qm EXCEPT !.syn = 0]
+  ELSE IF ~synSeen THEN qm
+  ELSE IF qm.syn >= IdleBound /\ Cfg.readonly = 0 THEN ReqFail(qm, "C04:pending-request-not-sent-on-idle-bus")
+  ELSE [qm EXCEPT !.syn = qm.syn + 1]
 
 (* quiescence: after a long silence (signal lost) no request may remain pending (not an AUTO-SYN generator) *)
 ReqQuiescent(qm, evs) ==
@@ -378,13 +393,17 @@ SendEv(sm, qm, e) ==
 (***************************************************************************)
 (* C03  entitlement of every transmitted symbol.                           *)
 (***************************************************************************)
-LostCap == LockCfg + 1
+(* automatic lock count (configured 0): "auto detection" = the number of masters on the bus, never below 3; P demands at least  *)
+(* ebusd itself plus the distinct masters that were the source of a telegram it reported as received before the arbitration was lost *)
+AutoLock(tm) == LET n == 1 + Cardinality(tm.ms \ {Cfg.own}) IN IF n > 3 THEN n ELSE 3
+LockNeed(tm) == IF Cfg.lock = 0 THEN AutoLock(tm) ELSE LockCfg
+LostCap == IF Cfg.lock = 0 THEN 8 ELSE LockCfg + 1
 (* "its SYN generation interval": a stand-by generator waits an address dependent time (10 ms per master number on top of the  *)
 (* SYN timeout of 51 ms) so that stand-by generators do not collide; once it has generated a SYN that came back it is the      *)
 (* acting generator with the nominal AUTO-SYN interval                                                                         *)
 StandbyInterval == 10 * MasterNumber(Cfg.own) + 51
 TxInit == [role |-> "idle", prevSyn |-> FALSE, lastTx |-> 999, lostSyn |-> LostCap, need |-> 0, silence |-> 0, await |-> FALSE,
-           acting |-> FALSE, bad |-> ""]
+           acting |-> FALSE, ms |-> {}, bad |-> ""]
 SynNeed(tm) == IF tm.acting THEN SynInterval ELSE StandbyInterval
 TxFail(tm, sig) == IF tm.bad = "" /\ sig \notin Muted THEN [tm EXCEPT !.bad = sig] ELSE tm
 
@@ -413,7 +432,7 @@ TxRx(tm, sym, org) ==
   IF tm.role = "arb" THEN
        IF sym = tm.lastTx THEN [u EXCEPT !.role = "own"]
        ELSE [u EXCEPT !.role = "mute", !.lostSyn = 0,
-                      !.need = IF (sym % 16) = (tm.lastTx % 16) THEN 2 ELSE LockCfg]
+                      !.need = IF (sym % 16) = (tm.lastTx % 16) THEN 2 ELSE LockNeed(tm)]
   ELSE IF tm.role \in {"own", "answer"} /\ tm.await /\ sym # tm.lastTx THEN [u EXCEPT !.role = "mute"]
   ELSE IF tm.role = "autosyn" THEN [u EXCEPT !.role = "mute"]
   ELSE u
@@ -426,6 +445,8 @@ TxEv(tm, rm, am, qm, e) ==
                                  !.role = IF tm.role \in {"own", "answer", "arb", "autosyn"} THEN "mute" ELSE tm.role]
     [] e[1] \in {"err", "close"} -> [tm EXCEPT !.prevSyn = FALSE, !.await = FALSE,
                                  !.role = IF tm.role \in {"own", "answer", "arb", "autosyn"} THEN "mute" ELSE tm.role]
+    [] e[1] = "msg" -> IF Cfg.lock = 0 /\ e[2] = 0 /\ Len(e[3]) > 0 /\ e[3][1] \in MasterSet /\ Cardinality(tm.ms) < 6
+                       THEN [tm EXCEPT !.ms = tm.ms \cup {e[3][1]}] ELSE tm
     [] OTHER -> tm
 
 =============================================================================
